@@ -5,7 +5,12 @@
    Everything the translator does not recognise becomes GEUnknown / GSUnknown carrying the Go
    source text (and the translator reports a PROBLEM); the interpretation of such a node is the
    distinguished result "not understood", so nothing can be proved about a function that
-   contains one on a path that is taken. *)
+   contains one on a path that is taken.
+
+   Two interpretations use this syntax: Spec/SpecWrappers.v (gen/Wrappers.v, the wrappers of
+   template.go; it covers the constructors above the line "second fragment" only, the others are
+   stuck there) and Spec/SpecSetFuncs.v (gen/SetFuncs.v, the template set's functions of
+   template_sets.go), which needs maps, a mutex, defer, a range loop and boolean operators. *)
 From Coq Require Export String List.
 Export ListNotations.
 
@@ -21,7 +26,19 @@ Inductive gexpr :=
 | GEEmptyBytes                                            (* make([]byte, 0[, capacity]) - the capacity is a hint, dropped *)
 | GENotNil (e : gexpr)                                    (* e != nil *)
 | GEIsNil (e : gexpr)                                     (* e == nil *)
-| GEUnknown (src : string).                               (* not translated *)
+| GEUnknown (src : string)                                (* not translated *)
+(* --- second fragment (tools/go2v/setfuncs.go) --- *)
+| GEBool (b : bool)                                       (* true, false *)
+| GEInt (n : nat)                                         (* a non-negative integer literal *)
+| GENot (e : gexpr)                                       (* !e *)
+| GEAnd (a b : gexpr)                                     (* a && b (b only when a is true) *)
+| GEOr (a b : gexpr)                                      (* a || b (b only when a is false) *)
+| GEEq (a b : gexpr)                                      (* a == b, neither side the literal nil *)
+| GENe (a b : gexpr)                                      (* a != b, neither side the literal nil *)
+| GELen (e : gexpr)                                       (* len(e) *)
+| GEIndexOk (m k : gexpr)                                 (* m[k] in "v, ok := m[k]" / "v, ok = m[k]": two values *)
+| GEMakeMap                                               (* make(map[K]V[, hint]) - a fresh empty map; the hint is dropped *)
+| GEAddr (e : gexpr).                                     (* &e, e a field selection *)
 
 Inductive gstmt :=
 | GSDefine (lhs : list string) (rhs : list gexpr)         (* a, b := e   or   a, b := e1, e2 *)
@@ -30,7 +47,14 @@ Inductive gstmt :=
                                                           (* if init; cond { thn } else { els } - init has 0 or 1 statement *)
 | GSReturn (es : list gexpr)                              (* return e1, e2   or   return f() *)
 | GSExpr (e : gexpr)                                      (* a call as a statement *)
-| GSUnknown (src : string).                               (* not translated *)
+| GSUnknown (src : string)                                (* not translated *)
+(* --- second fragment --- *)
+| GSMapStore (m k v : gexpr)                              (* m[k] = v *)
+| GSFieldStore (obj : gexpr) (f : string) (v : gexpr)     (* obj.f = v *)
+| GSDelete (m k : gexpr)                                  (* delete(m, k) *)
+| GSRange (key val : string) (coll : gexpr) (body : list gstmt)
+                                                          (* for key, val := range coll { body }  ("_" discards; no break/continue) *)
+| GSDefer (call : gexpr).                                 (* defer recv.m(args) *)
 
 (* func (recvname *recvtype) name(params) (nres results) { body } *)
 Record gfunc := mkGF {
